@@ -96,6 +96,105 @@ fn deep_message(e: &mut Ent) -> (Vec<u8>, &'static str) {
     }
 }
 
+/// A length-prefixed item (blob, text, primitive vector, principal, method name,
+/// future-type value) whose declared length is far beyond, or just beyond, the data
+/// that follows. Decoding must fail fast whatever the quota: no allocation sized
+/// from the prefix, no arithmetic overflow on length x element size, no cursor
+/// beyond the input.
+fn length_bomb(e: &mut Ent) -> (Vec<u8>, Option<&'static str>, &'static str) {
+    let data: Vec<u8> = (0..e.range(0, 12)).map(|_| e.u8()).collect();
+    let kind = e.below(12);
+    let elem: u64 = match kind {
+        2 => 2,
+        3 => 4,
+        4 | 5 => 8,
+        _ => 1,
+    };
+    let near = |x: u64, e: &mut Ent| -> u64 { x.wrapping_add(*e.pick(&[0u64, 1, 2, u64::MAX, u64::MAX - 1])) };
+    let len: u64 = match e.below(8) {
+        0 => data.len() as u64 / elem + 1,
+        1 => data.len() as u64 + *e.pick(&[1u64, 2, 3, 7]),
+        2 => near(u64::MAX / elem, e),
+        3 => near((u64::MAX / elem) / 2 + 1, e),
+        4 => *e.pick(&[1u64 << 31, 1 << 32, (1 << 32) - 1, 1 << 40]),
+        5 => *e.pick(&[1u64 << 61, (1 << 61) - 1, 1 << 62, (1 << 62) - 1, 1 << 63, (1 << 63) - 1, u64::MAX]),
+        6 => near(1u64 << 63, e),
+        _ => near(u64::MAX, e),
+    };
+    let mut m = b"DIDL".to_vec();
+    let mut native = None;
+    match kind {
+        0 => {
+            m.extend([1, 0x6d, 0x7b, 1, 0]);
+            put_uleb(&mut m, len);
+            native = Some(*e.pick(&["Vec<u8>", "ByteBuf", "Option<Vec<u8>>", "B8"]));
+        }
+        1 => {
+            m.extend([0, 1, 0x71]);
+            put_uleb(&mut m, len);
+            native = Some(*e.pick(&["String", "Option<String>", "Vec<u8>"]));
+        }
+        2 => {
+            m.extend([1, 0x6d, *e.pick(&[0x7au8, 0x76]), 1, 0]);
+            put_uleb(&mut m, len);
+            native = Some(*e.pick(&["Vec<u16>", "Vec<i16>", "Option<Vec<u16>>"]));
+        }
+        3 => {
+            m.extend([1, 0x6d, *e.pick(&[0x79u8, 0x75, 0x73]), 1, 0]);
+            put_uleb(&mut m, len);
+            native = Some(*e.pick(&["Vec<u32>", "Vec<i32>", "Vec<f32>"]));
+        }
+        4 => {
+            m.extend([1, 0x6d, *e.pick(&[0x78u8, 0x74, 0x72]), 1, 0]);
+            put_uleb(&mut m, len);
+            native = Some(*e.pick(&["Vec<u64>", "Vec<i64>", "Vec<f64>", "BU64"]));
+        }
+        5 => {
+            // nested: vec vec nat64 with one inner vector
+            m.extend([2, 0x6d, 1, 0x6d, 0x78, 1, 0, 1]);
+            put_uleb(&mut m, len);
+            native = Some("Vec<Vec<u64>>");
+        }
+        6 => {
+            m.extend([1, 0x6d, *e.pick(&[0x7eu8, 0x77]), 1, 0]);
+            put_uleb(&mut m, len);
+            native = Some(*e.pick(&["Vec<bool>", "Vec<i8>"]));
+        }
+        7 => {
+            // principal
+            m.extend([0, 1, 0x68, 1]);
+            put_uleb(&mut m, len);
+            native = Some("Principal");
+        }
+        8 => {
+            // func reference: principal ok, method name length hostile
+            m.extend([1, 0x6a, 0, 0, 0, 1, 0, 1, 1, 1, 0xaa]);
+            put_uleb(&mut m, len);
+            native = Some("FuncRef");
+        }
+        9 | 10 => {
+            // a value of a future type: m = declared data length, n = number of references
+            m.push(1);
+            put_sleb(&mut m, *e.pick(&[-25i64, -26, -40, -64]));
+            let desc = e.range(0, 2);
+            put_uleb(&mut m, desc as u64);
+            m.extend(std::iter::repeat(0u8).take(desc));
+            m.extend([1, 0]);
+            put_uleb(&mut m, len);
+            put_uleb(&mut m, if kind == 9 { 0 } else { *e.pick(&[0u64, 1, 1 << 32, u64::MAX]) });
+        }
+        _ => {
+            // record { blob; text } with the second length hostile
+            m.extend([2, 0x6c, 2, 0, 1, 1, 0x71, 0x6d, 0x7b, 1, 0]);
+            m.extend([2, 7, 7]);
+            put_uleb(&mut m, len);
+        }
+    }
+    m.extend(&data);
+    // sometimes more arguments follow (the item is then skipped, not decoded)
+    (m, native, "length-bomb")
+}
+
 fn bomb_message(e: &mut Ent, quota_set: bool) -> (Vec<u8>, &'static str) {
     let len: u64 = if quota_set {
         *e.pick(&[1u64 << 10, 1 << 20, 1 << 32, 1 << 40, (1 << 62) - 1, 1 << 62, u64::MAX >> 1])
@@ -324,7 +423,7 @@ impl Check for C06 {
             max_type_len: if e.ratio(1, 6) { Some(*e.pick(&[0usize, 1, 5, 100])) } else { None },
             stack: *e.pick(&[8usize << 20, 8 << 20, 1 << 20, 256 << 10]),
         };
-        let class_sel = e.below(10);
+        let class_sel = e.below(11);
         let mut target: Option<Target> = None;
         let (bytes, class): (Vec<u8>, &'static str) = match class_sel {
             0 => {
@@ -400,6 +499,23 @@ impl Check for C06 {
                     let n = *e.pick(&names);
                     if let Some(i) = reg.iter().position(|o| o.name() == n) {
                         target = Some(Target::Native(i));
+                    }
+                }
+                (b, c)
+            }
+            9 => {
+                let (b, native, c) = length_bomb(&mut e);
+                match e.below(4) {
+                    0 => target = Some(Target::NoType),
+                    1 => {
+                        // expected types that skip the item
+                        target = Some(Target::Untyped(rtype::Env::default(), if e.bool() { vec![] } else { vec![Ty::opt(Ty::Prim(rtype::Prim::Bool))] }));
+                    }
+                    2 => {}
+                    _ => {
+                        if let Some(i) = native.and_then(|n| reg.iter().position(|o| o.name() == n)) {
+                            target = Some(Target::Native(i));
+                        }
                     }
                 }
                 (b, c)
@@ -495,7 +611,7 @@ impl Check for C06 {
                 ctx.class("message-valid");
             }
         }
-        if header_ok || matches!(class, "hostile-header" | "zero-size-bomb" | "deep-opt" | "deep-vec" | "deep-record-opt" | "deep-list" | "deep-variant") {
+        if header_ok || matches!(class, "hostile-header" | "zero-size-bomb" | "length-bomb" | "deep-opt" | "deep-vec" | "deep-record-opt" | "deep-list" | "deep-variant") {
             let mut k = bytes.clone();
             k.extend(format!("{:?}{:?}", cfg, std::mem::discriminant(&target)).as_bytes());
             if let Target::Native(i) = &target {
